@@ -26,7 +26,19 @@ int main(void)
 	printf("sig_sched %d\n", __builtin_types_compatible_p(__typeof__(sched_gsmtime),
 		int(const struct tdma_sched_item *, uint32_t, uint16_t)));
 	printf("sig_exec %d\n", __builtin_types_compatible_p(__typeof__(sched_gsmtime_execute), int(uint32_t)));
+#ifdef HAVE_EVENTS_ARRAY
 	printf("events %u\n", (unsigned) ARRAY_SIZE(sched_gsmtime_events));
+#else
+	{
+		/* the pool is not a file-scope array of this name in this tree: MEASURED - events accepted until the pool is exhausted */
+		static const struct tdma_sched_item dummy[2];
+		unsigned n = 0;
+		sched_gsmtime_init();
+		while (n < 100000 && sched_gsmtime(dummy, 1000000 + n, 0) >= 0)
+			n++;
+		printf("events %u\n", n);
+	}
+#endif
 	printf("ahead %d\n", (int) (SCHEDULE_AHEAD));
 	printf("latency %d\n", (int) (SCHEDULE_LATENCY));
 	printf("offset %u\n", (unsigned) (uint8_t) (SCHEDULE_AHEAD-SCHEDULE_LATENCY));
@@ -46,9 +58,15 @@ def generate(run):
     exe = os.path.join(run.scratch, "gen_sched_gsmtime")
     open(src, "w").write(C_SRC)
     target = os.path.join(vf.REPO, "src/target/firmware/layer1/sched_gsmtime.c")
-    vf.cc([src], exe, flags=["-DHOST_BUILD", '-DSCHED_GSMTIME_C="%s"' % target,
-                             "-idirafter", cbuild.FW_INC],
-          includes=[cbuild.SHIM, cbuild.LIBOSMO_INC, cbuild.TOP_INC])
+    for probe in (["-DHAVE_EVENTS_ARRAY"], []):
+        try:
+            vf.cc([src], exe, flags=["-DHOST_BUILD", '-DSCHED_GSMTIME_C="%s"' % target, "-idirafter", cbuild.FW_INC] + probe +
+                  (["-Wl,--unresolved-symbols=ignore-all"] if not probe else []),
+                  includes=[cbuild.SHIM, cbuild.LIBOSMO_INC, cbuild.TOP_INC])
+            break
+        except vf.HarnessError:
+            if not probe:
+                raise
     rc, out = vf.sh([exe], check=True)
     kv = {}
     for ln in out.strip().split("\n"):
